@@ -173,6 +173,73 @@ fn check_slice(b: &ByteString, s: &str, a: usize, e: usize) -> Result<(), vcore:
     }
 }
 
+/// `Deserialize` driven by a minimal deserializer that hands the visitor the input in one of the six
+/// ways a data format may choose (text formats: str / String / borrowed str; binary formats and
+/// serde's buffered content: bytes / owned byte buffer / borrowed bytes)
+mod de {
+    use serde::de::{value::Error, Deserializer, Visitor};
+
+    #[derive(Clone, Copy, Debug)]
+    pub enum Mode {
+        Str,
+        String,
+        BorrowedStr,
+        Bytes,
+        ByteBuf,
+        BorrowedBytes,
+    }
+    pub const TEXT: [Mode; 3] = [Mode::Str, Mode::String, Mode::BorrowedStr];
+    pub const BINARY: [Mode; 3] = [Mode::Bytes, Mode::ByteBuf, Mode::BorrowedBytes];
+
+    pub struct D<'a> {
+        pub bytes: &'a [u8],
+        pub mode: Mode,
+    }
+
+    impl<'de> Deserializer<'de> for D<'de> {
+        type Error = Error;
+        fn deserialize_any<V: Visitor<'de>>(self, v: V) -> Result<V::Value, Error> {
+            match self.mode {
+                Mode::Str => v.visit_str(std::str::from_utf8(self.bytes).unwrap()),
+                Mode::String => v.visit_string(String::from_utf8(self.bytes.to_vec()).unwrap()),
+                Mode::BorrowedStr => v.visit_borrowed_str(std::str::from_utf8(self.bytes).unwrap()),
+                Mode::Bytes => v.visit_bytes(self.bytes),
+                Mode::ByteBuf => v.visit_byte_buf(self.bytes.to_vec()),
+                Mode::BorrowedBytes => v.visit_borrowed_bytes(self.bytes),
+            }
+        }
+        serde::forward_to_deserialize_any! {
+            bool i8 i16 i32 i64 i128 u8 u16 u32 u64 u128 f32 f64 char str string bytes byte_buf option unit
+            unit_struct newtype_struct seq tuple tuple_struct map struct enum identifier ignored_any
+        }
+    }
+}
+
+fn check_serde(bytes: &[u8], reference: Result<&str, std::str::Utf8Error>) -> Result<(), vcore::Fail> {
+    let modes: &[de::Mode] = if reference.is_ok() { &[de::Mode::Str, de::Mode::String, de::Mode::BorrowedStr, de::Mode::Bytes, de::Mode::ByteBuf, de::Mode::BorrowedBytes] } else { &de::BINARY };
+    let _ = de::TEXT;
+    for mode in modes {
+        let got = match catch_unwind(AssertUnwindSafe(|| <ByteString as Deserialize>::deserialize(de::D { bytes, mode: *mode }))) {
+            Ok(r) => r,
+            Err(p) => vfail!("C20/deserialize-panic", "Deserialize panicked on {:?} delivered as {:?}: {}", bytes, mode, vcore::panic_message(&*p)),
+        };
+        match (reference, got) {
+            (Ok(s), Ok(b)) => {
+                vensure!(valid(&b) && &*b == s, "C20/deserialize-differs", "Deserialize of {:?} delivered as {:?} holds {:?}", s, mode, b.as_bytes());
+            }
+            (Ok(s), Err(e)) => vfail!("C20/deserialize-rejects-valid", "Deserialize rejected valid UTF-8 {:?} delivered as {:?}: {}", s, mode, e),
+            (Err(_), Ok(b)) => vfail!("C20/ctor-accepts-invalid", "Deserialize accepted invalid UTF-8 {:?} delivered as {:?} (holds {:?})", bytes, mode, b.as_bytes()),
+            (Err(_), Err(_)) => {}
+        }
+    }
+    if let Ok(s) = reference {
+        let a = serde_json::to_string(&ByteString::from(s)).map_err(|e| vcore::Fail::new("C20/serialize", format!("{e}")))?;
+        let b = serde_json::to_string(s).unwrap();
+        vensure!(a == b, "C20/serialize-differs", "Serialize of {:?} gives {} but str gives {}", s, a, b);
+    }
+    Ok(())
+}
+
 pub fn check_case(c: &Case) -> CaseResult {
     let mut obs = Obs::new();
     let reference = std::str::from_utf8(&c.bytes);
@@ -181,6 +248,7 @@ pub fn check_case(c: &Case) -> CaseResult {
         Err(p) => vfail!("C20/ctor-panic", "a fallible constructor panicked on {:?}: {}", c.bytes, vcore::panic_message(&*p)),
     };
     let non_ascii = c.bytes.iter().any(|b| *b >= 0x80);
+    check_serde(&c.bytes, reference)?;
     match reference {
         Err(_) => {
             for (name, r) in &ctors {
@@ -320,7 +388,7 @@ pub fn case_from_bytes(data: &[u8]) -> Case {
     Case { bytes, other, split, sub: ((data[1] as usize) << 8, (data[2] as usize) << 8) }
 }
 
-const RULE: &str = "byte string built into a ByteString through every constructor and compared with str on validity, content, formatting, hashing, ordering (also against near copies of the same string: one to three characters changed or two swapped), split_at (all indices 0..=len+1 for short inputs, panic parity under catch_unwind) and slice_ref (all char-boundary sub-slices for short inputs), recursively on derived values; non-trivial = input contains a byte >= 0x80 (multi-byte sequence or invalid byte); distinct by the whole case";
+const RULE: &str = "byte string built into a ByteString through every constructor (and through Deserialize, the input handed to the visitor as str / String / borrowed str / bytes / owned byte buffer / borrowed bytes; Serialize compared with str through serde_json) and compared with str on validity, content, formatting, hashing, ordering (also against near copies of the same string: one to three characters changed or two swapped), split_at (all indices 0..=len+1 for short inputs, panic parity under catch_unwind) and slice_ref (all char-boundary sub-slices for short inputs), recursively on derived values; non-trivial = input contains a byte >= 0x80 (multi-byte sequence or invalid byte); distinct by the whole case";
 
 pub fn run(ctx: &Ctx) {
     ctx.assume("`str`/`String` of the standard library are the reference; hashing is compared with std's DefaultHasher and, write call by write call, with a recording hasher");
